@@ -22,8 +22,11 @@ own universe, checked point by point with harness/mcnpref.py (element located
 from the generator's vectors) against the written volumes (harness/t4eval.py)
 and their provenance comments.'''
 import json
+import os
 import random
 import signal
+import sys
+import time
 
 import numpy as np
 
@@ -64,6 +67,17 @@ ASSUMPTIONS = [
 ]
 HEADER = ('From Coq Require Import List Arith ZArith Bool PrimFloat.\n'
           'From T4V Require Import Base.Scalar C07.Model C07.Exec.\n')
+
+
+_T0 = [time.time()]
+
+
+def _stage(name):
+    """Wall time of the stages of run() on stderr when T4GC_TIMING is set."""
+    if os.environ.get('T4GC_TIMING'):
+        now = time.time()
+        sys.stderr.write(f'[C07 timing] {name}: {now - _T0[0]:.1f} s\n')
+        _T0[0] = now
 
 
 # ---- running the implementation -------------------------------------------
@@ -117,7 +131,7 @@ def walk_on_fake_adjacency(LT, pairs, first):
     real = LT.hexSortSides
     old = signal.signal(signal.SIGVTALRM, _valarm)
     LT.hexSortSides = lambda _surfs: adj
-    signal.setitimer(signal.ITIMER_VIRTUAL, 0.05)
+    signal.setitimer(signal.ITIMER_VIRTUAL, 0.01)
     try:
         verts, _ = LT.hexVertices(surfs, first)
         return ('ok', [(int(v[0]), int(v[1])) for v in verts])
@@ -484,6 +498,7 @@ def run(res, tier, seed, proofs_ok):
                 'centres, across every border and uniform in the container. '
                 'non-trivial = every case (distinct by surfaces)')
 
+    _T0[0] = time.time()
     # ---------------- known-finding witnesses ----------------
     conv = convert_watchdog(WITNESS_TRIVIAL_RANGE, 15.0)
     meta0 = {'caps': False, 'ranges': [(-1, 1), (0, 0), (0, 0)]}
@@ -494,6 +509,7 @@ def run(res, tier, seed, proofs_ok):
                       {'input': {'deck': WITNESS_TRIVIAL_RANGE}},
                       cls=finding_class(conv, meta0), found_input=True)
 
+    _stage('witnesses')
     # ---------------- function-level streams ----------------
     stream = []          # (surfaces, hexa or None, listing or None, fault)
     for _ in range(n_hex):
@@ -618,6 +634,7 @@ def run(res, tier, seed, proofs_ok):
                         proj_cases.append(cpair(cvec(pt), cplane(top),
                                                 cvec(drc), cres(pout, cvec)))
                         proj_meta.append((pt, top, drc))
+    _stage('function-level stream (implementation + oracle)')
     # degenerate numeric cases
     for _ in range(40):
         nrm = tuple(float(rng.choice([-1, 0, 1, 2])) for _ in range(3))
@@ -657,9 +674,21 @@ def run(res, tier, seed, proofs_ok):
                       if (listing[p[0]] - listing[p[1]]) % 6 in (1, 5))
         walk_inputs += [(pairs, first) for first in range(6)]
     if quick:
-        for _ in range(700):
+        for _ in range(200):
             walk_inputs.append((tuple(sorted(rng.sample(cross, 6))),
                                 rng.randrange(6)))
+        for _ in range(300):
+            # a closed tour of the six positions in any order (not only the
+            # 48 admissible ones), sometimes with one pair exchanged
+            while True:
+                order = rng.sample(range(6), 6)
+                if all(order[k] // 2 != order[k - 1] // 2 for k in range(6)):
+                    break
+            pairs = {tuple(sorted((order[k], order[k - 1]))) for k in range(6)}
+            if rng.random() < 0.3:
+                pairs.discard(rng.choice(sorted(pairs)))
+                pairs.add(rng.choice([p for p in cross if p not in pairs]))
+            walk_inputs.append((tuple(sorted(pairs)), rng.randrange(6)))
     else:
         import itertools
         walk_inputs += [(pairs, first)
@@ -695,8 +724,10 @@ def run(res, tier, seed, proofs_ok):
         ('proj', 'c07_proj', 'fvec * fplane * fvec * res fvec', 'check_proj',
          proj_cases, proj_meta, 'projectPointOnPlane FS'),
     ]
+    _stage('walk cases')
     for tie, fname, ctype, cfun, cases, meta, what in ties:
         bad, errs = common.run_case_files(fname, HEADER, ctype, cfun, cases)
+        _stage('coq tie ' + tie)
         res.obligation(f'tie:{tie} ({len(cases)} cases: model {what} = '
                        'implementation)', not bad and not errs,
                        f'{len(bad)} disagreements {errs[:1]}')
@@ -760,6 +791,7 @@ def run(res, tier, seed, proofs_ok):
                                      'abstract': deck,
                                      'point': first['point']},
                            'failures': failures[:5]}, found_input=True)
+    _stage('deck sweep')
     res.count('deck points checked', n_checked)
     res.obligation(f'sweep: {n_decks} LAT=2 decks, {n_checked} points located '
                    'with the reference semantics', n_checked > 20 * n_decks,
